@@ -34,7 +34,7 @@ PROPS = {
                 ("unfill", FF, 2000, 50000), ("refill", FF, 2000, 50000), ("indent", FF, 1500, 30000), ("dedent", FF, 1500, 30000),
                 ("wc", FF, 1500, 40000), ("dw", FF, 2000, 40000), ("fwa", FF, 1500, 30000), ("fwu", FF, 1500, 30000),
                 ("sw", FF, 1500, 30000), ("bw", FF, 1500, 30000), ("ba", FF, 1500, 30000), ("ff", FF, 1500, 30000),
-                ("of", FF, 1500, 30000), ("ffx", FF, 2000, 50000), ("ofx", FF, 2000, 50000), ("wsl", FF, 1500, 30000), ("std", FF, 2000, 50000)],
+                ("of", FF, 1500, 30000), ("ffx", FF, 2000, 50000), ("ofx", FF, 2000, 50000), ("ofu", FF, 2000, 50000), ("wsl", FF, 1500, 30000), ("std", FF, 2000, 50000)],
         "explanation": "totality theorems for wrap and fill (every byte slice in range and on boundaries), fill_inplace, unfill, split_words (built-in splitters), optimal_fit (every Num), wrap_columns relative to wrap; functions whose model type has no option cannot fail in the model; the rest is exploration: every op under catch_unwind and a watchdog on the adversarial stream, debug build with overflow checks (release as well in the thorough tier), non-finite f64 fragments",
         "assumptions": ["memory exhaustion, stack depth and wall-clock time are outside the model and only measured"],
     },
